@@ -149,6 +149,7 @@ func (x *Exec) applyIfaceContract(fr *Frame, st *State, fc *FuncContract, c *ssa
 		for i := 0; i < sig.Params().Len(); i++ {
 			if i+1 < len(args) {
 				henv.vars[sig.Params().At(i).Name()] = args[i+1]
+				henv.vars[fmt.Sprintf("arg%d", i)] = args[i+1] // unnamed interface parameters
 			}
 		}
 		for _, pat := range fc.Assigns {
@@ -168,6 +169,7 @@ func (x *Exec) applyIfaceContract(fr *Frame, st *State, fc *FuncContract, c *ssa
 	for i := 0; i < sig.Params().Len(); i++ {
 		if i+1 < len(args) {
 			env.vars[sig.Params().At(i).Name()] = args[i+1]
+			env.vars[fmt.Sprintf("arg%d", i)] = args[i+1] // unnamed interface parameters
 		}
 	}
 	env.oldVars = env.vars
